@@ -292,7 +292,7 @@ pub fn suite_builder(ctx: &Ctx, thorough: bool) {
     for k in ["k", "K", "b.c", "bad key", ""] { for v in ["", "v", "a&b=c"] { ops.push(Op::Q(k, v)); } ops.push(Op::NoQ(k)); }
     ops.push(Op::Q("checksum", "SHA1:AB")); ops.push(Op::Q("checksum", "sha1:xyz")); ops.push(Op::Q("checksum", "")); ops.push(Op::Q("CheckSum", ""));
     ops.push(Op::NoQ("CHECKSUM"));
-    let len = if thorough { 3 } else { 2 };
+    let len = if thorough { 4 } else { 3 };
     let n = ops.len();
     let total = (1..=len).map(|l| n.pow(l as u32)).sum::<usize>();
     par_for(total, &|mut idx| {
